@@ -65,7 +65,7 @@ def _harness_assignments(trace, entry):
     return {k: vals[k] for k in order}
 
 
-def make_replay(prop, g, r, o, meta):
+def make_replay(prop, g, r, o, meta, search=True):
     os.makedirs(os.path.join(OUT, prop), exist_ok=True)
     safe = re.sub(r'[^A-Za-z0-9_.-]', '_', o['id'])
     path = os.path.join(OUT, prop, '%s.%s.json' % (g['name'], safe))
@@ -83,7 +83,9 @@ def make_replay(prop, g, r, o, meta):
     }
     found = False
     cex = g.get('cex') or meta.get('cex')
-    if cex:
+    if cex and not search:
+        rep['native_replay'] = {'skipped': 'the bounded input search was run once for this group, on the first refuted obligation (see its replay file)'}
+    elif cex:
         try:
             from . import native
             nat = native.search_and_replay(prop, g, o, cex, inputs)
